@@ -14,6 +14,9 @@ mod verif_c14 {
     fn stub_powf(x: f32, _y: f32) -> f32 { x }
     fn stub_expf(x: f32) -> f32 { x }
     fn stub_cbrtf(x: f32) -> f32 { x }
+    /// stand-in for the 18 image-level curve loops (image_*_eotf/oetf): the Ok/Err contract is decided by the dispatch in
+    /// to_linear/to_gamma, not by what the loops compute
+    fn stub_image(v: Vec<[f32; 3]>) -> Vec<[f32; 3]> { v }
     /// unpadded stand-in for Plane::new (allocation of 64-byte aligned rows dominates otherwise; layout is C11's subject)
     fn stub_plane_new<T: Pixel>(width: usize, height: usize, xdec: usize, ydec: usize, _xpad: usize, _ypad: usize) -> Plane<T> {
         let buf = vec![T::cast_from(128u8); width * height];
@@ -202,7 +205,8 @@ def replay(ctx, spec, f):
 def plan(tier, seed):
     p = Plan()
     p.stubbing = True
-    p.max_jobs = 9      # the multi-stage instances need 4-5 GB each
+    p.max_jobs = 10 if tier != "thorough" else 5
+    p.prepends.append(("src/lib.rs", '#![recursion_limit = "1024"]'))
     import os
     here = os.path.dirname(__file__)
     p.modules.append(("yuvxyb-math/src/matrix.rs", open(os.path.join(here, "..", "harness", "math_stub.rs")).read()))
@@ -224,21 +228,41 @@ def plan(tier, seed):
         mcs_all = [0, 1, 3, 4, 5, 6, 7, 8, 9, 10, 11, 12, 13, 14]
         if thorough:
             mcs = mcs_all
-        elif cps.index(cp) % 6 == seed % 6 or cp == 10:
-            mcs = [1, 0, 3]      # a standard matrix, one derived from the primaries, Reserved (quick: 3 of the 13 primaries, incl. ST 428)
+        elif cp in (0, 1, 3):
+            mcs = [1, 0, 3]      # quick: Reserved0, BT.709, Reserved primaries x {standard, derived-from-primaries, Reserved} matrices
+        elif cp == 9:
+            mcs = [1]            # plus BT.2020 primaries with the BT.709 matrix (instances with a real gamut conversion need ~20 GB each)
         else:
             mcs = []
         stubs = ("    #[kani::proof]\n    #[kani::unwind(6)]\n    #[kani::stub(yuvxyb_math::pow_exp::powf, stub_powf)]\n    #[kani::stub(yuvxyb_math::pow_exp::expf, stub_expf)]\n"
                  "    #[kani::stub(yuvxyb_math::cbrtf::cbrtf, stub_cbrtf)]\n    #[kani::stub(v_frame::plane::Plane::new, stub_plane_new)]\n"
-                 "    #[kani::stub(yuvxyb_math::matrix::Matrix::mul_arr, yuvxyb_math::matrix::verif_stub_mul_arr)]\n    #[kani::stub(yuvxyb_math::matrix::Matrix::invert, yuvxyb_math::matrix::verif_stub_invert)]\n")
+                 "    #[kani::stub(yuvxyb_math::matrix::Matrix::mul_arr, yuvxyb_math::matrix::verif_stub_mul_arr)]\n    #[kani::stub(yuvxyb_math::matrix::Matrix::invert, yuvxyb_math::matrix::verif_stub_invert)]\n"
+                 "    #[kani::stub(crate::yuv_rgb::transfer::image_log100_inverse_oetf, stub_image)]\n"
+                 "    #[kani::stub(crate::yuv_rgb::transfer::image_log316_inverse_oetf, stub_image)]\n"
+                 "    #[kani::stub(crate::yuv_rgb::transfer::image_rec_1886_eotf, stub_image)]\n"
+                 "    #[kani::stub(crate::yuv_rgb::transfer::image_rec_470m_oetf, stub_image)]\n"
+                 "    #[kani::stub(crate::yuv_rgb::transfer::image_rec_470bg_oetf, stub_image)]\n"
+                 "    #[kani::stub(crate::yuv_rgb::transfer::image_xvycc_eotf, stub_image)]\n"
+                 "    #[kani::stub(crate::yuv_rgb::transfer::image_srgb_eotf, stub_image)]\n"
+                 "    #[kani::stub(crate::yuv_rgb::transfer::image_st_2084_inverse_oetf, stub_image)]\n"
+                 "    #[kani::stub(crate::yuv_rgb::transfer::image_arib_b67_inverse_oetf, stub_image)]\n"
+                 "    #[kani::stub(crate::yuv_rgb::transfer::image_log100_oetf, stub_image)]\n"
+                 "    #[kani::stub(crate::yuv_rgb::transfer::image_log316_oetf, stub_image)]\n"
+                 "    #[kani::stub(crate::yuv_rgb::transfer::image_rec_1886_inverse_eotf, stub_image)]\n"
+                 "    #[kani::stub(crate::yuv_rgb::transfer::image_rec_470m_inverse_oetf, stub_image)]\n"
+                 "    #[kani::stub(crate::yuv_rgb::transfer::image_rec_470bg_inverse_oetf, stub_image)]\n"
+                 "    #[kani::stub(crate::yuv_rgb::transfer::image_xvycc_inverse_eotf, stub_image)]\n"
+                 "    #[kani::stub(crate::yuv_rgb::transfer::image_srgb_inverse_eotf, stub_image)]\n"
+                 "    #[kani::stub(crate::yuv_rgb::transfer::image_st_2084_oetf, stub_image)]\n"
+                 "    #[kani::stub(crate::yuv_rgb::transfer::image_arib_b67_oetf, stub_image)]\n")
         multi = ""
         for m in dict.fromkeys(mcs):
             for fam, flag in (("linear", "false"), ("xyb", "true")):
                 nm = "k_c14_yuv_%s_p%d_m%d" % (fam, cp, m)
                 multi += stubs + "    fn %s() { multi_p%d::<%s>(%d, %d) }\n" % (nm, cp, flag, cp, m)
                 hs.append(dict(name=nm, family="c14", obligation="YUV<->%s: symmetry, error names an offender, standard combinations succeed, config/dimensions as requested [primaries index %d, matrix index %d]" % ("linear RGB" if fam == "linear" else "XYB", cp, m),
-                               timeout=1800, mem_gb=16, covers=["reached"], replay=replay, what="multi", mi=m,
-                               sym="transfer symbolic over all 18 values; primaries index %d, matrix index %d (quick: 3 of the 13 primaries x {standard, derived, Reserved} matrices; thorough: all 13 x 14)" % (cp, m)))
+                               timeout=1800, mem_gb=16 if cp in (0, 1, 3) else 34, covers=["reached"], replay=replay, what="multi", mi=m,
+                               sym="transfer symbolic over all 18 values; primaries index %d, matrix index %d (quick: Reserved0/BT.709/Reserved primaries x {standard, derived, Reserved} matrices and BT.2020 x BT.709; thorough: all 13 x 14)" % (cp, m)))
         txt += BODY.replace("@P@", str(cp)).replace("@P2@", str(cp2)).replace("@MULTI@", multi)
         for (fam, what, obl, covers) in fams:
             if fam == "k_c14_gamma_linear_both_bad" and cp in sup:
